@@ -26,7 +26,7 @@ theorem storedPath_error {dir : Option PPath} {p : PPath} {e : Err} (h : storedP
     · cases h
     · exact (Except.error.inj h).symm
 
-theorem encRecording_error {tids : List Tag} {dir : Option PPath} {r : Recording} {e : Err}
+theorem encRecording_err_invalid {tids : List Tag} {dir : Option PPath} {r : Recording} {e : Err}
     (h : encRecording tids dir r = .error e) : e = .invalid := by
   unfold encRecording at h
   cases hp : storedPath dir r.path with
@@ -35,7 +35,7 @@ theorem encRecording_error {tids : List Tag} {dir : Option PPath} {r : Recording
     simp only [hp, bind, Except.bind, Except.error.injEq] at h
     exact h ▸ storedPath_error hp
 
-theorem mapM_encRecording_error {tids : List Tag} {dir : Option PPath} {rs : List Recording} {e : Err}
+theorem mapM_encRecording_err_invalid {tids : List Tag} {dir : Option PPath} {rs : List Recording} {e : Err}
     (h : rs.mapM (encRecording tids dir) = .error e) : e = .invalid := by
   induction rs generalizing e with
   | nil => simp [pure, Except.pure] at h
@@ -44,7 +44,7 @@ theorem mapM_encRecording_error {tids : List Tag} {dir : Option PPath} {rs : Lis
     cases hr : encRecording tids dir r with
     | error e' =>
       simp only [hr, bind, Except.bind, Except.error.injEq] at h
-      exact h ▸ encRecording_error hr
+      exact h ▸ encRecording_err_invalid hr
     | ok o =>
       cases hrs : rs.mapM (encRecording tids dir) with
       | error e' =>
@@ -58,7 +58,7 @@ theorem shared_error {os : List Obj} {dir : Option PPath} {e : Err} (h : shared 
   cases hm : (dedupBy (·.uuid) (recsOf os)).mapM (encRecording (tagTable os) dir) with
   | error e' =>
     simp only [hm, bind, Except.bind, Except.error.injEq] at h
-    exact h ▸ mapM_encRecording_error hm
+    exact h ▸ mapM_encRecording_err_invalid hm
   | ok rs => simp [hm, bind, Except.bind, pure, Except.pure] at h
 
 theorem recordingDoc_error {ty : String} {uuid co : Atom} {recs : List Recording} {os : List Obj}
@@ -68,7 +68,7 @@ theorem recordingDoc_error {ty : String} {uuid co : Atom} {recs : List Recording
   cases hm : recs.mapM (encRecording (tagTable os) dir) with
   | error e' =>
     simp only [hm, bind, Except.bind, Except.error.injEq] at h
-    exact h ▸ mapM_encRecording_error hm
+    exact h ▸ mapM_encRecording_err_invalid hm
   | ok rs => simp [hm, bind, Except.bind, pure, Except.pure] at h
 
 theorem annotationDoc_error {ty : String} {uuid co : Atom} {cas : List ClipAnnotation} {os : List Obj}
@@ -97,7 +97,7 @@ theorem bind_error {α β : Type} {m : Except Err α} {k : α → Except Err β}
   | error e' => left; simpa [bind, Except.bind] using h
   | ok x => right; exact ⟨x, rfl, by simpa [bind, Except.bind] using h⟩
 
-theorem save_error {c : Collection} {dir : Option PPath} {e : Err} (h : save c dir = .error e) :
+theorem save_err_invalid {c : Collection} {dir : Option PPath} {e : Err} (h : save c dir = .error e) :
     e = .invalid := by
   cases c with
   | recordingSet x => exact recordingDoc_error h
@@ -132,7 +132,16 @@ theorem save_cases {c : Collection} {dir : Option PPath} (hc : CoherentBy (·.uu
   refine ⟨save_of_pathsOK, fun hn => ?_⟩
   cases hs : save c dir with
   | ok d => exact absurd (pathsOK_of_savePaths hc (save_iff.1 hs).2) hn
-  | error e => rw [save_error hs]
+  | error e => rw [save_err_invalid hs]
+
+theorem pathOK_some_iff {A : PPath} {r : Recording} : PathOK (some A) r ↔ inside r.path A := by
+  refine ⟨fun h => ?_, pathOK_inside⟩
+  rcases pathOK_iff.1 h with ⟨q, hq⟩
+  simp only [storedPath, relativeTo] at hq
+  split at hq
+  · rename_i hcond
+    exact ⟨hcond.1, List.isPrefixOf_iff_prefix.1 hcond.2⟩
+  · cases hq
 
 /-! ### reading the state -/
 section top
